@@ -162,10 +162,18 @@ theorem C09_gate_zip (inflate : Bytes → Nat → Option Bytes) (junk : Bytes) (
 
 theorem C09_gate_bzip2 (blocks : List (BitVec 32 × Bytes)) (sc : BitVec 32) (out : Bytes)
     (h : bzDepack blocks sc = some out) :
-    (∀ b ∈ blocks, b.1 = bzBlockCrc b.2) ∧ sc = bzStreamCrc 0 (blocks.map (·.2)) ∧
-      out = (blocks.map (·.2)).flatten := by
+    (∀ b ∈ blocks, b.1 = bzBlockCrc b.2) ∧ out = (blocks.map (·.2)).flatten := by
   have := gate_bz 0 [] blocks sc out h
   simpa using this
+
+/-- **Finding (weakness, not a violation of the quantified property):** as the code is, the stored
+    bzip2 *stream* CRC never influences the verdict — `write_bunzip_data` returns `gotcount` (0)
+    at the end-of-stream header, so `decrunch_bzip2` does not reach its `headerCRC == totalCRC`
+    test.  Every block is still gated by its own CRC (`C09_gate_bzip2`), which is what the
+    rejection theorem rests on. -/
+theorem C09_bzip2_stream_crc_unchecked (blocks : List (BitVec 32 × Bytes)) (sc sc' : BitVec 32) :
+    bzDepack blocks sc = bzDepack blocks sc' :=
+  bz_stream_crc_ignored 0 [] blocks sc sc'
 
 theorem C09_gate_xz (hdr bh : Bytes) (chunks : List Bytes) (check : Nat) (index : Bytes) (icrc : Nat)
     (footer out : Bytes) (h : xzAccept hdr bh chunks check index icrc footer = some out) :
@@ -180,6 +188,12 @@ theorem C09_gate_arc (env : ArcEnv) (f out : Bytes) (h : arcDepack env f = some 
 theorem C09_gate_arcfs (env : ArcEnv) (f out : Bytes) (h : arcfsDepack env f = some out) :
     ∃ pos, le16 f (pos + 26) = 0 ∨ le16 f (pos + 26) = (crc16IBM out 0).toNat :=
   gate_arcfs env f out h
+
+theorem C09_gate_lzx (env : LzxEnv) (f out : Bytes) (h : lzxDepack env f = some out) :
+    ∃ pos, le32 f (pos + 22) = (crc32A out 0).toNat ∧
+      le32 f (pos + 26) = lzxHeaderCrc (slice f pos 31) (slice f (pos + 31) (u8 f (pos + 30)))
+        (slice f (pos + 31 + u8 f (pos + 30)) (u8 f (pos + 14))) :=
+  gate_lzx env f out h
 
 /-! ## rejection -/
 
@@ -233,16 +247,17 @@ theorem C09_reject_zip_field (inflate : Bytes → Nat → Option Bytes) (junk : 
   · exact h h2
 
 /-- **bzip2**: if some block decodes to data within one ≤ 32-bit burst of what was packed under its
-    (intact) header CRC, or the stream CRC field differs from the combined CRC, the stream is refused -/
+    (intact) header CRC, or a block's header CRC field is anything but the CRC of the data it decodes
+    to (e.g. one flipped bit), the stream is refused -/
 theorem C09_reject_bzip2 (blocks : List (BitVec 32 × Bytes)) (sc : BitVec 32) (out : Bytes)
     (hbad : (∃ b ∈ blocks, ∃ orig, b.1 = bzBlockCrc orig ∧ BitBurstM 32 orig b.2) ∨
-            sc ≠ bzStreamCrc 0 (blocks.map (·.2))) :
+            (∃ b ∈ blocks, b.1 ≠ bzBlockCrc b.2)) :
     bzDepack blocks sc ≠ some out := by
   intro h
-  obtain ⟨h1, h2, _⟩ := C09_gate_bzip2 blocks sc out h
-  rcases hbad with ⟨b, hb, orig, ho, hburst⟩ | hne
+  obtain ⟨h1, _⟩ := C09_gate_bzip2 blocks sc out h
+  rcases hbad with ⟨b, hb, orig, ho, hburst⟩ | ⟨b, hb, hne⟩
   · exact C09_bzcrc_detects orig b.2 hburst (ho.symm.trans (h1 b hb))
-  · exact hne h2
+  · exact hne (h1 b hb)
 
 theorem C09_reject_xz (hdr bh : Bytes) (chunks : List Bytes) (check : Nat) (index : Bytes) (icrc : Nat)
     (footer orig out : Bytes) (hs : check = (crc32A orig 0).toNat) (hb : BitBurst 32 orig out) :
@@ -286,6 +301,15 @@ theorem C09_reject_arcfs (env : ArcEnv) (f orig out : Bytes)
   · rcases hs pos with h1 | h1
     · exact toNat16_ne (C09_crc16_detects orig out 0 hb) (h1.symm.trans hc)
     · exact h1 hc
+
+theorem C09_reject_lzx (env : LzxEnv) (f orig out : Bytes)
+    (hs : ∀ pos, le32 f (pos + 22) = (crc32A orig 0).toNat ∨ le32 f (pos + 22) ≠ (crc32A out 0).toNat)
+    (hb : BitBurst 32 orig out) : lzxDepack env f ≠ some out := by
+  intro h
+  obtain ⟨pos, hc, _⟩ := C09_gate_lzx env f out h
+  rcases hs pos with h1 | h1
+  · exact toNat32_ne (C09_crc32_detects orig out 0 hb) (h1.symm.trans hc)
+  · exact h1 hc
 
 /-- **C09_reject** — the summary used by the check: for the three check codes, a gate that only
     accepts `stored = check(out)` never accepts an output within one burst of the payload whose
